@@ -92,8 +92,12 @@ def rnd_user_param(rng, name, earlier_ints):
     return {"name": name, "type": {"name": name + "_T", "kind": "str", "enc": enc}}, False
 
 
-def rnd_criteria(rng, refs):
-    """criteria over small-valued integer parameters"""
+def rnd_criteria(rng, refs, params=None):
+    """criteria over small-valued integer parameters; parameters with a calibrator (raw != calibrated) are preferred"""
+    calibrated = [r for r in refs if params and r in params and params[r]["type"]["enc"].get("t") == "num"
+                  and (params[r]["type"]["enc"].get("default") or params[r]["type"]["enc"].get("context"))]
+    if calibrated and rng.random() < 0.7:
+        refs = calibrated + [rng.choice(refs)]
     ks = []
     for _ in range(rng.choice([1, 1, 2])):
         ref = rng.choice(refs)
@@ -104,7 +108,8 @@ def rnd_criteria(rng, refs):
             other = rng.choice(refs)
             tree = [rng.choice(["and", "or"]),
                     [{"left": ref, "op": rng.choice(["==", ">", "<="]), "lcal": rng.random() < 0.5, "rvalue": str(rng.choice([0, 1, 2]))},
-                     {"left": ref, "op": rng.choice(["!=", "<=", "=="]), "lcal": rng.random() < 0.5, "rparam": other, "rcal": rng.random() < 0.5}],
+                     (lambda lc: {"left": ref, "op": rng.choice(["!=", "<=", "==", ">"]), "lcal": lc, "rparam": other,
+                                  "rcal": (not lc) if rng.random() < 0.6 else lc})(rng.random() < 0.5)],
                     [] if rng.random() < 0.6 else [[("or" if True else "and"), [{"left": other, "op": ">=", "lcal": rng.random() < 0.5,
                                                                                "rparam": ref, "rcal": rng.random() < 0.5}], []]]]
             if tree[0] == "or" and tree[2]:
@@ -152,7 +157,7 @@ def rnd_definition(rng, apid_name="PKT_APID"):
                 if common is not None and rng.random() < 0.15:
                     entries.append(["c", "COMMON"])
             c = {"name": name, "entries": entries, "abstract": rng.random() < 0.3, "base": parent["name"],
-                 "criteria": rnd_criteria(rng, [apid_name, "SEQ_FLGS", "TYPE"] + small_ints), "inheritors": []}
+                 "criteria": rnd_criteria(rng, [apid_name, "SEQ_FLGS", "TYPE"] + small_ints, params), "inheritors": []}
             containers.append(c)
             parent["inheritors"].append(name)
             grow(c, depth + 1, ints)
